@@ -26,8 +26,9 @@ CanonSegs == IF Site = "file" THEN Cwd \o Below \o <<"root">> ELSE <<"x">> \o Be
 CanonUrl == [scheme |-> Site, host |-> IF Site = "file" THEN "" ELSE "h1", abs |-> TRUE,
              segs |-> CanonSegs, query |-> "", hasfrag |-> FALSE, ptr |-> <<>>]
 
+\* raw: a URL spelling written with its blanks / non-ASCII letters as they are instead of percent-escaped
 Sp(form, upper, segs, frag, query) ==
-  [form |-> form, upper |-> upper, segs |-> segs, frag |-> frag, query |-> query]
+  [form |-> form, upper |-> upper, segs |-> segs, frag |-> frag, query |-> query, raw |-> FALSE]
 
 Initial == Sp(IF Site = "file" THEN "url3" ELSE Site, FALSE, CanonSegs, FALSE, FALSE)
 
@@ -49,9 +50,10 @@ UpperScheme(sp)  == IF sp.form \in {"url3", "url1", "http", "https"} /\ ~sp.uppe
                     THEN {[sp EXCEPT !.upper = TRUE]} ELSE {}
 AppendFragment(sp) == IF ~sp.frag THEN {[sp EXCEPT !.frag = TRUE]} ELSE {}
 AppendQuery(sp)  == IF ~sp.query /\ sp.form \in (FileForms \cup {"rel"}) THEN {[sp EXCEPT !.query = TRUE]} ELSE {}
+Unescape(sp)     == IF ~sp.raw /\ sp.form \in {"url3", "url1", "http", "https"} THEN {[sp EXCEPT !.raw = TRUE]} ELSE {}
 
 Succs(sp) == InsertDot(sp) \cup InsertDetour(sp) \cup DoubleSlash(sp) \cup SwitchForm(sp)
-             \cup RelativeToCwd(sp) \cup UpperScheme(sp) \cup AppendFragment(sp) \cup AppendQuery(sp)
+             \cup RelativeToCwd(sp) \cup UpperScheme(sp) \cup AppendFragment(sp) \cup AppendQuery(sp) \cup Unescape(sp)
 
 \* ---- the canonicalisation C11 speaks of
 NonEmpty(segs) == SelectSeq(segs, LAMBDA s : s # "")
